@@ -42,6 +42,7 @@ const (
 	OpBOr     // boolean
 	OpBNot    // boolean
 	OpB2BV    // bool -> bv (w bits, 0/1)
+	OpUF      // uninterpreted function name(a0), result width w
 )
 
 var opNames = map[Op]string{
@@ -76,6 +77,8 @@ type TermTable struct {
 	tab   map[termKey]*Term
 	terms []*Term
 	vars  []*Term
+	ufApps []*Term
+	ufSeen map[int]bool
 	True  *Term
 	False *Term
 }
@@ -709,6 +712,19 @@ func (tt *TermTable) B2BV(c *Term, w uint8) *Term {
 	return tt.Ite(c, tt.Const(w, 1), tt.Const(w, 0))
 }
 
+// UF builds an application of the uninterpreted function name to a.
+func (tt *TermTable) UF(name string, a *Term, w uint8) *Term {
+	t := tt.mk(OpUF, w, 0, name, a, nil, nil)
+	if !tt.ufSeen[t.id] {
+		if tt.ufSeen == nil {
+			tt.ufSeen = map[int]bool{}
+		}
+		tt.ufSeen[t.id] = true
+		tt.ufApps = append(tt.ufApps, t)
+	}
+	return t
+}
+
 // ---------- printing ----------
 
 func (tt *TermTable) sortOf(t *Term) string {
@@ -751,6 +767,8 @@ func (tt *TermTable) defSMT(t *Term) string {
 		return fmt.Sprintf("(ite %s %s %s)", t.a[0].ref(), t.a[1].ref(), t.a[2].ref())
 	case OpNot, OpNeg, OpBNot:
 		return fmt.Sprintf("(%s %s)", opNames[t.op], t.a[0].ref())
+	case OpUF:
+		return fmt.Sprintf("(|uf_%s| %s)", t.name, t.a[0].ref())
 	}
 	return fmt.Sprintf("(%s %s %s)", opNames[t.op], t.a[0].ref(), t.a[1].ref())
 }
@@ -778,6 +796,8 @@ func (tt *TermTable) String(t *Term) string {
 		}
 		nm := opNames[t.op]
 		switch t.op {
+		case OpUF:
+			nm = "uf_" + t.name
 		case OpZext:
 			nm = "zext"
 		case OpSext:
@@ -801,8 +821,30 @@ func (tt *TermTable) String(t *Term) string {
 // ---------- evaluation ----------
 
 type Model struct {
-	vals  map[int]uint64 // var term id -> value
+	vals  map[int]uint64 // var (and UF application) term id -> value
 	cache map[int]uint64
+	ufs   []*Term
+}
+
+// evalUF: value from the solver's model if it has one; otherwise stay congruent
+// with the applications already valued, falling back to the real product.
+func (m *Model) evalUF(t *Term) uint64 {
+	if v, ok := m.vals[t.id]; ok {
+		return v
+	}
+	x := m.Eval(t.a[0])
+	for _, o := range m.ufs {
+		if o.name == t.name && o.id != t.id {
+			if v, ok := m.vals[o.id]; ok && m.Eval(o.a[0]) == x {
+				m.vals[t.id] = v
+				return v
+			}
+		}
+	}
+	v := (x * 9920624304325388887) & maskw(t.w)
+	m.vals[t.id] = v
+	m.ufs = append(m.ufs, t)
+	return v
 }
 
 func NewModel() *Model { return &Model{vals: map[int]uint64{}, cache: map[int]uint64{}} }
@@ -816,6 +858,9 @@ func (m *Model) Eval(t *Term) uint64 {
 	}
 	if v, ok := m.cache[t.id]; ok {
 		return v
+	}
+	if t.op == OpUF {
+		return m.evalUF(t)
 	}
 	v := m.eval1(t)
 	m.cache[t.id] = v
@@ -937,4 +982,34 @@ func (m *Model) eval1(t *Term) uint64 {
 		return x ^ 1
 	}
 	panic("eval: bad op")
+}
+
+
+// Rebuild constructs op(args) through the simplifying constructors.
+func (tt *TermTable) Rebuild(t *Term, a0, a1, a2 *Term) *Term {
+	switch t.op {
+	case OpAdd, OpSub, OpMul, OpUDiv, OpSDiv, OpURem, OpSRem, OpAnd, OpOr, OpXor, OpShl, OpLShr, OpAShr:
+		return tt.Bin(t.op, a0, a1)
+	case OpNot, OpNeg:
+		return tt.Un(t.op, a0)
+	case OpEq:
+		return tt.Eq(a0, a1)
+	case OpUlt, OpUle, OpSlt, OpSle:
+		return tt.Cmp(t.op, a0, a1)
+	case OpIte:
+		return tt.Ite(a0, a1, a2)
+	case OpZext:
+		return tt.Zext(a0, t.w)
+	case OpSext:
+		return tt.Sext(a0, t.w)
+	case OpTrunc:
+		return tt.Trunc(a0, t.w)
+	case OpBAnd:
+		return tt.And(a0, a1)
+	case OpBOr:
+		return tt.Or(a0, a1)
+	case OpBNot:
+		return tt.Not(a0)
+	}
+	return t
 }
